@@ -80,6 +80,16 @@ def fill_caches(*values):
                 f.width
             except Exception:
                 pass
+            # ... and had used it: every public operation that only READS its receiver, results thrown away (an operation may leave a
+            # lazily built table or memo behind on the receiver; the value itself must be the same value afterwards)
+            for use in (lambda: f.divides, lambda: f.splice("x", 0), lambda: f.splice("", 0, len(f)), lambda: f.append("y"), lambda: f[0:1], lambda: f[::1] if False else f[:],
+                        lambda: f.setslice_with_length(0, 0, "k", len(f) + 1), lambda: f.shared_atts, lambda: f.split("a"), lambda: f.copy(),
+                        lambda: f.width_at_offset(len(f)), lambda: f.width_aware_slice(slice(0, 1)), lambda: f == f, lambda: f + "z", lambda: f * 2,
+                        lambda: f.join(["a", "b"]), lambda: list(f.width_aware_splitlines(2)), lambda: f.ljust(len(f) + 1)):
+                try:
+                    use()
+                except Exception:      # noqa: BLE001
+                    pass
         elif isinstance(f, (list, tuple)):
             fill_caches(*f)
 
@@ -209,7 +219,7 @@ CHAR_CLASSES = ["\u3000", "\u00a0", "\u200b", "\u200d", "\u00ad", "\u2028", "\uf
 # surrogateescape / os.fsdecode produce), a surrogate PAIR as two code points, the byte order mark / zero width no-break space,
 # noncharacters, NUL, the last code point
 ODD_CODEPOINTS = ["\udce9", "\ud800", "\ud83d\ude00", "\ufeff", "\ufffe", "\uffff", "\U0010ffff", "\x00", "\ufffd"]
-ODD_TEXTS = ["caf\udce9", "\ufeffab", "a\ufeffb", "x\ud83d\ude00y", "\ud800", "ab\ufeff", "\x00z", "q\uffff"]
+ODD_TEXTS = ["caf\udce9", "\ufeffab", "a\ufeffb", "x\ud83d\ude00y", "\ud800", "ab\ufeff", "\x00z", "q\uffff", "c\td", "\tq", "ab\t", "v\x0bw\x0c", "bel\x07"]
 
 
 # environment variables that libraries commonly consult at import time or at run time (colour conventions, terminal type, locale)
